@@ -22,7 +22,7 @@ var c09Floats = []float64{0, 1.5, -2.5, 1e300}
 var c09ConcreteStrings = false
 
 func symData(name string, depth int) any {
-	nk := 16
+	nk := 18
 	if depth <= 0 {
 		nk = 9
 	}
@@ -60,6 +60,16 @@ func symData(name string, depth int) any {
 		return [2]int{1, 2}
 	case 14:
 		return []any{[0]string{}, complex(1, 2)}
+	case 15:
+		return struct {
+			*c09T
+			Name string
+		}{nil, "n"}
+	case 16:
+		return []any{&struct {
+			*c09T
+			N int
+		}{&c09T{N: 1}, 2}}
 	}
 	return struct{ P *[3]int }{&[3]int{1, 2, 3}}
 }
